@@ -28,7 +28,8 @@ TRUSTED = ["h5py raw reads of pixels/bin1_id, bin2_id, count and indexes/bin1_of
            "scipy coo_matrix.toarray sums entries with equal coordinates (modelled by look)"]
 ASSUMPTIONS = ["np.linspace(lo,hi,num,dtype=int) yields cut points within [lo,hi] starting at lo and ending at hi (the theorems quantify over every such cut sequence; "
                "the exact-arithmetic linspace of the model is compared with numpy's and float-rounding differences are counted, not alarmed)"]
-RESIDUE = ["window bounds outside [-n, n] are outside the claim", "pydata/sparse and dask outputs are not installed"]
+RESIDUE = ["window bounds outside [-n, n] are outside the claim", "pydata/sparse and dask outputs are not installed",
+           "bounds given as numpy uint64 scalars are refused with IndexError (numpy promotes uint64 + int64 to float64): a refusal, outside the claim; int64 / int32 / int16 / uint8 scalar bounds are exercised"]
 
 CHUNKS = ["1", "2", "3", "nnz", "nnz+1", "big"]
 
@@ -430,6 +431,40 @@ def run_spellings(ctx):
                 continue
             if got.shape != exp.shape or not (got == exp).all():
                 ctx.fail(case, {"got": got.tolist(), "expected": exp.tolist()}, None)
+        # the same bounds handed over as numpy integer scalars (what np.searchsorted, .iloc lookups and arange hand back): the
+        # window is the one the Python ints select, for the dense, sparse and pixel forms and for the table selectors
+        sel_sp = clr.matrix(balance=False, sparse=True, chunksize=2)
+        for T in (np.int64, np.int32, np.int16, np.uint8):      # not uint64: numpy promotes uint64 + int64 to float64, and cooler then refuses the bound (IndexError) - a refusal, outside the claim
+            lo = 0 if T is np.uint8 else -n
+            quads = [(a, b_, c_, d_) for a in range(lo, n + 1) for b_ in range(lo, n + 1) for c_ in range(lo, n + 1) for d_ in range(lo, n + 1)]
+            for (a, b_, c_, d_) in (quads if len(quads) <= 81 else ctx.rng.sample(quads, 40)):
+                r0, r1, _ = slice(a, b_).indices(n)
+                c0, c1, _ = slice(c_, d_).indices(n)
+                if r0 > r1 or c0 > c1:
+                    continue
+                exp = F[a:b_, c_:d_]
+                case = {"fn": "matrix[a:b,c:d]", "n": n, "key": [a, b_, c_, d_], "bound_type": T.__name__}
+                ctx.case(case, nontrivial=exp.size > 0, kind="spelling:numpy-scalar-bounds")
+                try:
+                    got = sel[T(a):T(b_), T(c_):T(d_)]
+                    gsp = sel_sp[T(a):T(b_), T(c_):T(d_)].toarray()
+                    tb = clr.bins()[T(r0):T(r1)]
+                except Exception as e:
+                    ctx.fail(case, {"error": repr(e), "expected": exp.tolist()}, None)
+                    continue
+                if got.shape != exp.shape or not (got == exp).all() or gsp.shape != exp.shape or not (gsp == exp).all() or len(tb) != r1 - r0:
+                    ctx.fail(case, {"got": got.tolist(), "sparse": gsp.tolist(), "bins_rows": len(tb), "expected": exp.tolist()}, None)
+            for s in range(lo, n):
+                exp = F[s:s + 1 if s != -1 else None, :]
+                case = {"fn": "matrix[s]", "n": n, "s": s, "bound_type": T.__name__}
+                ctx.case(case, kind="spelling:numpy-scalar-bounds")
+                try:
+                    got = sel[T(s)]
+                except Exception as e:
+                    ctx.fail(case, {"error": repr(e), "expected": exp.tolist()}, None)
+                    continue
+                if got.shape != exp.shape or not (got == exp).all():
+                    ctx.fail(case, {"got": got.tolist(), "expected": exp.tolist()}, None)
         for s in (-n - 1, -n - 5, n, n + 3):       # a scalar beyond either end is an IndexError, never a wrapped-around row
             case = {"fn": "matrix[s]", "n": n, "s": s}
             ctx.case(case, kind="spelling")
